@@ -33,7 +33,16 @@ pub struct TimeoutCase {
     /// sends three bytes and a plain `read` must deliver them
     #[serde(default)]
     pub again: u8,
+    /// not 0 (ops 0, 1, 3): the limit is HUGE[huge - 1] - centuries and more, values at which a conversion to
+    /// nanoseconds or milliseconds wraps - and the peer acts 25 ms into the call: the call must deliver (or refuse the
+    /// limit with an error of its own), never report Timeout
+    #[serde(default)]
+    pub huge: u8,
 }
+
+/// (seconds, nanoseconds): multiples of 2^55 s (= 0 modulo 2^64 ns) with and without a small remainder, the ends of
+/// the signed and unsigned ranges
+pub const HUGE: [(u64, u32); 7] = [(1 << 55, 0), (1 << 56, 5_000_000), ((1u64 << 63) - (1 << 55), 0), (u64::MAX, 999_999_999), (i64::MAX as u64, 0), (1 << 60, 1), (18_446_744_074, 0)];
 
 pub fn run_timeout(c: &TimeoutCase) -> CaseResult {
     match inner(c) {
@@ -65,7 +74,70 @@ fn plan_eintr(mode: u8, limit: Duration) -> Option<Interrupter> {
     None
 }
 
+fn inner_huge(c: &TimeoutCase) -> Result<CaseReport, Stop> {
+    let mut rep = CaseReport::new();
+    let _guard = PlanGuard;
+    sc::verif::clear_plan();
+    let dir = CaseDir::new();
+    let (secs, nanos) = HUGE[(c.huge as usize - 1) % HUGE.len()];
+    let d = Duration::new(secs, nanos);
+    let t0 = Instant::now();
+    let (opname, res): (&str, Result<bool, tiny_std::Error>) = if c.op == 3 {
+        let (tiny, peer) = establish(true, true, &dir)?;
+        let Tiny::T(mut s) = tiny else { unreachable!() };
+        let pfd = peer.fd();
+        let h = std::thread::spawn(move || {
+            std::thread::sleep(Duration::from_millis(25));
+            unsafe { libc::write(pfd, b"x".as_ptr().cast(), 1) };
+        });
+        let mut buf = [0u8; 8];
+        let r = no_panic("TcpStream::read_with_timeout", || s.read_with_timeout(&mut buf, d).map(|n| n == 1 && buf[0] == b'x'));
+        let _ = h.join();
+        drop(peer);
+        ("TcpStream::read_with_timeout", r?)
+    } else {
+        let mut b = bind_tiny(c.op == 1, &dir)?;
+        let (path, port) = (b.path.clone(), b.port);
+        let h = std::thread::spawn(move || {
+            std::thread::sleep(Duration::from_millis(25));
+            let c = if path.is_empty() { libc_tcp_connect(port, false) } else { libc_unix_connect(&path) };
+            std::thread::sleep(Duration::from_millis(100));
+            drop(c);
+        });
+        let name = if c.op == 1 { "TcpListener::accept_with_timeout" } else { "UnixListener::accept_with_timeout" };
+        let r = no_panic(name, || match &mut b.l {
+            TinyListener::U(l) => UnixListener::accept_with_timeout(l, d).map(|_s| true),
+            TinyListener::T(l) => l.accept_with_timeout(d).map(|_s| true),
+        });
+        let _ = h.join();
+        (name, r?)
+    };
+    let el = t0.elapsed();
+    match res {
+        Ok(true) => rep.class("huge-limit-and-the-peer-acts: served"),
+        Ok(false) => return Err(stop_fail(format!("{opname}|wrong-bytes|huge limit"), format!("{opname}({d:?}): the peer sent one byte 'x' 25 ms into the call, something else came back"))),
+        Err(e) => match ek(&e) {
+            EK::Timeout => {
+                return Err(stop_fail(format!("{opname}|early-timeout|returned before the limit"), format!("{opname}({d:?}) returned Timeout after {el:?} on the monotonic clock (the peer acts 25 ms into the call; the limit is {secs} s + {nanos} ns)")));
+            }
+            k if is_resource(&k) => return Err(Stop::Inconclusive(format!("{opname}: {e}"))),
+            // a limit the implementation cannot represent may be refused with an error of its own
+            _ => rep.class("huge-limit-refused-with-an-error"),
+        },
+    }
+    rep.nontrivial = true;
+    rep.class(match c.op {
+        0 => "unix-accept",
+        1 => "tcp-accept",
+        _ => "tcp-read",
+    });
+    Ok(rep)
+}
+
 fn inner(c: &TimeoutCase) -> Result<CaseReport, Stop> {
+    if c.huge != 0 && c.op != 2 {
+        return inner_huge(c);
+    }
     let mut rep = CaseReport::new();
     let _guard = PlanGuard;
     let dir = CaseDir::new();
@@ -355,5 +427,5 @@ fn inner(c: &TimeoutCase) -> Result<CaseReport, Stop> {
 }
 
 pub fn timeout_strategy() -> impl Strategy<Value = TimeoutCase> {
-    (prop_oneof![1 => Just(0u8), 1 => Just(1u8), 1 => Just(2u8), 3 => Just(3u8)], prop_oneof![3 => 1000u32..5000, 3 => 5000u32..20_000, 1 => 20_000u32..=80_000], 0u16..1000, prop_oneof![3 => Just(0u8), 1 => Just(1u8), 1 => Just(2u8), 2 => Just(3u8)], 0u8..4, prop_oneof![2 => Just(0u8), 1 => Just(1u8), 1 => Just(2u8), 1 => Just(3u8)]).prop_map(|(op, micros, nanos, eintr, origin, again)| TimeoutCase { op, micros, nanos, eintr, origin, again: if op != 3 && again == 3 { 2 } else { again } })
+    (prop_oneof![1 => Just(0u8), 1 => Just(1u8), 1 => Just(2u8), 3 => Just(3u8)], prop_oneof![3 => 1000u32..5000, 3 => 5000u32..20_000, 1 => 20_000u32..=80_000], 0u16..1000, prop_oneof![3 => Just(0u8), 1 => Just(1u8), 1 => Just(2u8), 2 => Just(3u8)], 0u8..4, prop_oneof![2 => Just(0u8), 1 => Just(1u8), 1 => Just(2u8), 1 => Just(3u8)], prop_oneof![8 => Just(0u8), 1 => 1u8..=7]).prop_map(|(op, micros, nanos, eintr, origin, again, huge)| TimeoutCase { op, micros, nanos, eintr, origin, again: if op != 3 && again == 3 { 2 } else { again }, huge })
 }
